@@ -371,6 +371,8 @@ def _uf_apply(name, *args):
 
 
 def s_exp(x):
+    if _isnan(x):
+        return x
     if not is_sym(x):
         if x == 0:
             return 1
@@ -379,7 +381,21 @@ def s_exp(x):
     return _uf_apply("exp", x)
 
 
+def np_log(x):
+    """numpy.log on a scalar: NaN for a negative argument, -inf at 0 (IEEE), otherwise ln (paths fork on the sign of a
+    symbolic argument)"""
+    if _isnan(x):
+        return x
+    if x < 0:
+        return float("nan")
+    if x == 0:
+        return float("-inf")
+    return s_log(x)
+
+
 def s_log(x):
+    if _isnan(x):
+        return x
     if not is_sym(x):
         if x == 1:
             return 0
@@ -391,6 +407,8 @@ def s_log(x):
 
 
 def s_sqrt(x):
+    if _isnan(x):
+        return x
     if not is_sym(x):
         if x in (0, 1):
             return x
@@ -406,6 +424,8 @@ def s_sqrt(x):
 
 
 def s_cos(x):
+    if _isnan(x):
+        return x
     if not is_sym(x):
         if x == 0:
             return 1
@@ -435,6 +455,8 @@ def s_fabs(x):
 
 def sym_pow(base, e):
     """base ** e with C `pow` / Python semantics over the reals."""
+    if _isnan(base) or _isnan(e):
+        return float("nan")
     if not is_sym(e):
         ef = _frac(e) if not isinstance(e, (int, bool)) else Fraction(int(e))
         if ef.denominator == 1 and abs(ef.numerator) <= 12:
